@@ -36,11 +36,25 @@ FORMATS = ["properties", "dtd", "ini", "inc", "ftl", "po", "android"]
 BAD_BYTES = [b"\xff", b"\xfe\xff", b"\xc3", b"\xe2\x82", b"\x00", b"\xef\xbf\xbd", b"\xed\xa0\x80", b"\x80", b"\xf0\x9f"]
 
 
+RISKY = [b"%0$S", b"%00$S", b"%1$", b"%.", b"%*S", b"%", b"%%", b"%1$S%1$d", b"%10$S", b"&#x;", b"&#0;", b"&;", b"&", b"<!--", b"-->", b"]]>",
+         b"<![CDATA[", b"<", b">", b"{ -", b"{ $", b"{", b"}", b"->", b"*[", b"\\u", b"\\ud800", b"\\u0000", b"\\", b"@string/", b"\\'", b"'",
+         b'"', b'""', b"#1", b"#0", b";", b"\n", b"\n\n", b"=", b" = ", b"[", b"]", b"msgid", b"msgstr", b"#define", b"<!ENTITY", b"0", b"9", b"$"]
+
+
 def byte_mutate(b, rng, n):
     b = bytearray(b)
     for _ in range(n):
         r = rng.random()
         p = rng.randrange(len(b) + 1)
+        if r < 0.25:
+            tok = rng.choice(RISKY)
+            if rng.random() < 0.5 and b:
+                q = min(len(b), p + rng.randrange(1, 4))
+                b[p:q] = tok          # replace a few bytes by a risky token
+            else:
+                b[p:p] = tok
+            continue
+        r = (r - 0.25) / 0.75
         if r < 0.3 and b:
             del b[p % len(b)]
         elif r < 0.55:
@@ -92,8 +106,13 @@ def gen_cases(ctx):
                 l10n = bytes(rng.randrange(256) for _ in range(rng.randrange(0, 60)))
                 tag = "arbitrary-both"
             # replacement characters inside values of shared strings
-            if tag == "structured" and rng.random() < 0.5:
-                l10n = l10n.replace(b"L10N", b"L\xef\xbf\xbdN", 1) if rng.random() < 0.5 else l10n.replace(b"L10N", b"L\xff0N", 1)
+            if tag == "structured" and rng.random() < 0.6:
+                # replacement characters (or bytes that decode to one) inside the values of some strings
+                words = [w.encode("utf-8") for w in R.WORDS] + [b"L10N", b"und", b"von", b"Text", b"fett", b"siehe", b"einfach"]
+                hit = [w for w in words if w in l10n]
+                for w in rng.sample(hit, min(len(hit), rng.randrange(1, 3))):
+                    rep = w[:1] + (b"\xef\xbf\xbd" if rng.random() < 0.5 else b"\xff") + w[1:]
+                    l10n = l10n.replace(w, rep, 1 if rng.random() < 0.5 else 5)
                 tag = "ufffd"
             cases.append({"fmt": fmt, "ref": ref.decode("latin-1"), "l10n": l10n.decode("latin-1"),
                           "merge": rng.random() < 0.5, "tag": tag})
